@@ -205,12 +205,15 @@ impl PtraceDumper {
 
         // Even if we completely fail to fill in any additional Auxv info, we can still press
         // forward.
-        if let Err(e) = self.auxv.try_filling_missing_info(
+        let auxv_unavailable = if let Err(e) = self.auxv.try_filling_missing_info(
             self.pid,
             soft_errors.subwriter(InitError::FillMissingAuxvInfoErrors),
         ) {
             soft_errors.push(InitError::FillMissingAuxvInfoFailed(e));
-        }
+            true
+        } else {
+            false
+        };
 
         // If we completely fail to enumerate any threads... Some information is still better than
         // no information!
@@ -218,6 +221,28 @@ impl PtraceDumper {
             self.enumerate_threads(soft_errors.subwriter(InitError::EnumerateThreadsErrors))
         {
             soft_errors.push(InitError::EnumerateThreadsFailed(Box::new(e)));
+        }
+
+        if auxv_unavailable {
+            // The auxiliary vector of a process whose initial thread has exited cannot be read
+            // through the process id. The other threads of the process still show it.
+            for tid in self
+                .threads
+                .iter()
+                .map(|t| t.tid)
+                .filter(|t| *t != self.pid)
+            {
+                if self
+                    .auxv
+                    .try_filling_missing_info(
+                        tid,
+                        soft_errors.subwriter(InitError::FillMissingAuxvInfoErrors),
+                    )
+                    .is_ok()
+                {
+                    break;
+                }
+            }
         }
 
         // Same with mappings -- Some information is still better than no information!
@@ -462,8 +487,23 @@ impl PtraceDumper {
         let maps_file =
             std::fs::File::open(&maps_path).map_err(|e| InitError::IOError(maps_path, e))?;
 
-        let maps = procfs_core::process::MemoryMaps::from_read(maps_file)
+        let mut maps = procfs_core::process::MemoryMaps::from_read(maps_file)
             .map_err(InitError::ReadProcessMapFileFailed)?;
+
+        if maps.len() == 0 {
+            // Once the initial thread has exited (it stays around as a zombie while other
+            // threads live on) the map reads as empty through the process id. The other
+            // threads of the process still show it.
+            for thread in self.threads.iter().filter(|t| t.tid != self.pid) {
+                let path = format!("/proc/{}/task/{}/maps", self.pid, thread.tid);
+                if let Ok(thread_maps) = procfs_core::process::MemoryMaps::from_file(path) {
+                    if thread_maps.len() != 0 {
+                        maps = thread_maps;
+                        break;
+                    }
+                }
+            }
+        }
 
         self.mappings = MappingInfo::aggregate(maps, self.auxv.get_linux_gate_address())
             .map_err(InitError::AggregateMappingsFailed)?;
@@ -690,7 +730,10 @@ impl PtraceDumper {
     ) -> Result<T, DumperError> {
         assert!(idx < self.mappings.len());
 
-        Self::from_process_memory_for_mapping(&self.mappings[idx], self.pid)
+        // Memory cannot be read through the id of an initial thread that has exited, any other
+        // thread of the process will do.
+        let reader_tid = self.threads.first().map_or(self.pid, |t| t.tid);
+        Self::from_process_memory_for_mapping(&self.mappings[idx], reader_tid)
     }
 
     pub fn from_process_memory_for_mapping<T: module_reader::ReadFromModule>(
